@@ -314,6 +314,8 @@ def sp_lengths(shape, kind):
 def mk_species(desc, pop=None):
     ls = desc["lengths"]
     t = build_tree(_tup(desc["shape"]), lengths=lambda i, leaf: ls[i], rooted=True)
+    if ls[0] is not None:
+        t._seed_node.edge.length = ls[0]   # build_tree leaves the root edge alone
     if pop == "edge_attr":
         for i, n in enumerate(S.pre(t._seed_node)):
             n._edge.pop_size = [0.5, 2, 10][i % 3]
@@ -524,6 +526,10 @@ def species_descs(quick):
     for s in shapes:
         for kind in ("ultra", "plain", "zero"):
             out.append({"shape": s, "lengths": sp_lengths(s, kind), "kind": kind})
+        # a species tree whose root carries a branch length (newick "(...):0.25;", or a tree from birth_death_tree): the root
+        # population is still open-ended
+        ls = sp_lengths(s, "ultra")
+        out.append({"shape": s, "lengths": [0.25] + ls[1:], "kind": "ultra+rootlength"})
     return out
 
 
